@@ -110,11 +110,19 @@ fn describe(t: &OTok) -> String {
 
 /// Align model tokens with output tokens.
 pub fn align(model: &[(Tok, Slot)], out: &[OTok], opts: Option<&Opts>, out_text: &str, issues: &mut Vec<Issue>, strict_numbers: bool) {
+    align_full(model, out, &[], opts, None, out_text, issues, strict_numbers, &mut vec![])
+}
+
+/// `import_sign`: content prefix of import placeholder comments; `pairs` receives (model index, output index) of aligned tokens
+#[allow(clippy::too_many_arguments)]
+pub fn align_full(model: &[(Tok, Slot)], out: &[OTok], trailing_comments: &[String], opts: Option<&Opts>, import_sign: Option<&str>, out_text: &str, issues: &mut Vec<Issue>, strict_numbers: bool, pairs: &mut Vec<(usize, usize)>) {
     let mut j = 0usize;
     let mut i = 0usize;
     // context: top level of an at-rule prelude (between the at-keyword and its `{` / `;`, outside any bracket)
     let mut prelude_depth = 0usize;
     let mut in_at_prelude = false;
+    let mut marker_at = usize::MAX;
+    let mut marker_used = 0usize;
     while i < model.len() {
         let (m, slot) = &model[i];
         match &m.kind {
@@ -148,6 +156,32 @@ pub fn align(model: &[(Tok, Slot)], out: &[OTok], opts: Option<&Opts>, out_text:
                 i += 1;
                 continue;
             }
+        }
+        if let TokKind::CommentMarker(path) = &m.kind {
+            let comments: &[String] = match out.get(j) {
+                Some(o) => &o.comments_before,
+                None => trailing_comments,
+            };
+            let sign = import_sign.unwrap_or("");
+            // consecutive placeholders in front of the same token are consumed in order
+            if marker_at != j {
+                marker_at = j;
+                marker_used = 0;
+            }
+            let is_placeholder = |c: &String| c.strip_prefix(sign).map(|r| r.starts_with(' ')).unwrap_or(false);
+            let mine: Vec<&String> = comments.iter().filter(|c| is_placeholder(c)).collect();
+            match mine.get(marker_used) {
+                Some(c) => {
+                    let enc = &c[sign.len() + 1..];
+                    if urlencoding::decode(enc).map(|d| d != path.as_str()).unwrap_or(true) {
+                        issues.push(Issue { class: "import", key: "placeholder-wrong".into(), what: format!("import placeholder `{}` does not decode to the path {:?}", c, path) });
+                    }
+                }
+                None => issues.push(Issue { class: "import", key: "placeholder-missing".into(), what: format!("expected a comment `{} <percent-encoded {:?}>` here, found comments {:?}", sign, path, comments) }),
+            }
+            marker_used += 1;
+            i += 1;
+            continue;
         }
         let Some(o) = out.get(j) else {
             issues.push(Issue { class: "tokens", key: "missing-token".into(), what: format!("output ends before model token #{} {:?}", i, m.kind) });
@@ -219,12 +253,17 @@ pub fn align(model: &[(Tok, Slot)], out: &[OTok], opts: Option<&Opts>, out_text:
             issues.push(Issue { class: "tokens", key: format!("token-mismatch:{}", kind_name(&m.kind)), what: format!("model token #{} {:?} but output has {:?} (…{}…)", i, m.kind, o.kind, excerpt(out_text, o.start, o.end, 40, 20)) });
             return;
         }
+        pairs.push((i, j));
         i += 1;
         j += 1;
     }
     if j < out.len() {
         issues.push(Issue { class: "tokens", key: "extra-token".into(), what: format!("output has {} extra tokens, first {:?}", out.len() - j, out[j].kind) });
     }
+}
+
+pub fn kind_name_pub(k: &TokKind) -> &'static str {
+    kind_name(k)
 }
 
 fn kind_name(k: &TokKind) -> &'static str {
@@ -244,6 +283,7 @@ fn kind_name(k: &TokKind) -> &'static str {
         TokKind::Match(_) => "match",
         TokKind::Open(_) => "open",
         TokKind::Close(_) => "close",
+        TokKind::CommentMarker(_) => "comment-marker",
     }
 }
 
